@@ -78,10 +78,10 @@ package wkt
 
 // closures handed to splitByRegexpYield as `set`: called with len(matches)+1
 //@ func unmarshalMultiLineString$1(i)
-//@   requires 0 <= i && i <= 4611686018427387904
+//@   requires 0 <= i && i <= 1099511627777
 //@ func unmarshalPolygon$1(i)
-//@   requires 0 <= i && i <= 4611686018427387904
+//@   requires 0 <= i && i <= 1099511627777
 //@ func unmarshalMultiPolygon$1(i)
-//@   requires 0 <= i && i <= 4611686018427387904
+//@   requires 0 <= i && i <= 1099511627777
 //@ func unmarshalMultiPolygon$2$1(i)
-//@   requires 0 <= i && i <= 4611686018427387904
+//@   requires 0 <= i && i <= 1099511627777
